@@ -46,6 +46,38 @@ CLAIMED = {
         note="Lean kernel; standard axioms; Python re/str.replace/set semantics modelled; expat used only as an oracle.",
         technique="Lean 4 proof (kernel-decided range tables + lemmas) + differential correspondence",
         design="6/C20"),
+    "C14": dict(
+        category="proof",
+        text="Lean theorems: html5lib's named reference table equals the standard's (all 2231 entries, decided in the kernel "
+             "against CPython's independent html.entities.html5, both re-derived every run); numeric references decode to the "
+             "standard's character for EVERY natural number (range split by omega + the table below 160 decided in the kernel), "
+             "always a single scalar value. The reference-consumption code (longest match, attribute exception, pushed-back "
+             "remainder) is the hand model H5.Model.CharRef tied by exact token comparison on every entity name in five "
+             "contexts and checked on the real code against an independent longest-match reference; the reverse "
+             "(serializer) clause is decided by search on the real code (partial).",
+        note="Lean kernel; standard axioms; html.entities.html5 as the standard's table; bisect trie modelled abstractly.",
+        technique="Lean 4 proof (kernel-decided tables + arithmetic) + exhaustive differential correspondence",
+        design="6/C14"),
+    "C02": dict(
+        category="proof",
+        text="Hand model of the whole tokenizer in Lean (one function per state method, explicit Python exception sites, "
+             "explicit fuel) tied to the real tokenizer by exact comparison (tokens, chunking, parse errors, number of state "
+             "calls, generator-pull interface) on ~60k inputs per quick run / >1M thorough, all 67 states reached. "
+             "Proved so far: tag/attribute names are lower-cased exactly on A-Z (table lifted to all code points), "
+             "idempotence. The simulation against the WHATWG state machine is not proved; the WHATWG clause is decided "
+             "by differential search (partial).",
+        note="Lean kernel; standard axioms; hand model tied by correspondence; stream layer excluded (C05).",
+        technique="Lean 4 model + lemmas; differential correspondence against the real tokenizer",
+        design="6/C02"),
+    "C16": dict(
+        category="proof",
+        text="Lean theorem decided in the kernel over the parse-error sites extracted from the AST of the tokenizer, parser and "
+             "input stream on every run: every site's literal code has a message template in E and supplies every variable "
+             "the template mentions (so strict mode can only raise ParseError); exactly two forwarding sites exist. "
+             "The strict-iff-lenient, first-error and position clauses are decided by search on the real code (partial).",
+        note="Lean kernel; standard axioms; site extraction by tools/extract.py; %-formatting semantics assumed.",
+        technique="Lean 4 proof over extracted error-site table + strict/lenient differential on the real code",
+        design="6/C16"),
 }
 
 PENDING_REASON = "check under construction in this round: model/theorems not yet committed (see DESIGN section 8); not claimed"
